@@ -307,6 +307,12 @@ pub enum TraceOp {
 pub struct TraceCase {
     pub cores: u8,
     pub ops: Vec<TraceOp>,
+    /// bit i%64 set: event i carries the same time stamp as event i-1 if both were recorded by
+    /// the same core into the same trace page (the recorder's clock has microsecond resolution
+    /// and the replayer keeps times as f32 seconds, so neighbours on one core do collide). Their
+    /// order in the page is then the only order there is, and the replayer must keep it.
+    #[serde(default)]
+    pub ties: u64,
 }
 
 #[derive(Clone, Debug)]
@@ -425,13 +431,26 @@ fn resolve(c: &TraceCase) -> (Vec<Event>, usize, bool, usize) {
     (events, held_frames, nontrivial || near_unknown, excluded)
 }
 
-fn write_trace(path: &std::path::Path, events: &[Event], cores: usize) -> std::io::Result<()> {
+fn write_trace(path: &std::path::Path, events: &[Event], cores: usize, ties: u64) -> std::io::Result<usize> {
     const ENTRIES: usize = (4096 - 4) / 16;
     // distribute events to per-core page lists, keeping global order via timestamps
     let mut pages: Vec<(u32, Vec<u128>)> = Vec::new();
     let mut open: BTreeMap<usize, usize> = BTreeMap::new(); // core -> page index
+    let mut last_time = 0u128;
+    let mut tied = 0usize;
     for (i, e) in events.iter().enumerate() {
-        let time_us = (i as u128 + 1) * 1_000_000; // whole seconds: exact in f32, strictly increasing
+        // whole seconds: exact in f32, strictly increasing - except for requested ties between
+        // neighbours that go to the same page of the same core
+        let same_page = i > 0
+            && events[i - 1].core == e.core
+            && open.get(&e.core).is_some_and(|&pi| pages[pi].1.len() < ENTRIES);
+        let time_us = if same_page && ties >> (i % 64) & 1 == 1 {
+            tied += 1;
+            last_time
+        } else {
+            (i as u128 + 1) * 1_000_000
+        };
+        last_time = time_us;
         let entry: u128 = time_us
             | ((e.pfn as u128) << 38)
             | ((e.alloc as u128) << 62)
@@ -462,7 +481,8 @@ fn write_trace(path: &std::path::Path, events: &[Event], cores: usize) -> std::i
         }
         f.write_all(&page)?;
     }
-    f.flush()
+    f.flush()?;
+    Ok(tied)
 }
 
 /// Reference replayer, written from the property statement: every free event releases
@@ -527,7 +547,7 @@ fn c20_check(c: &TraceCase, bin: &str, tmp: &std::path::Path) -> Result<(bool, V
     let tid = std::thread::current().id();
     let trace = tmp.join(format!("trace-{id:016x}-{tid:?}.bin"));
     let frag = tmp.join(format!("frag-{id:016x}-{tid:?}.txt"));
-    write_trace(&trace, &events, cores).map_err(|e| format!("[SETUP] cannot write trace: {e}"))?;
+    let tied = write_trace(&trace, &events, cores, c.ties).map_err(|e| format!("[SETUP] cannot write trace: {e}"))?;
     let out = Command::new(bin)
         .arg(&trace)
         .args(["--stride", "1", "--interval", "1", "--frag"])
@@ -598,6 +618,9 @@ fn c20_check(c: &TraceCase, bin: &str, tmp: &std::path::Path) -> Result<(bool, V
     if events.iter().any(|e| !e.alloc) {
         classes.push("has_free");
     }
+    if tied > 0 {
+        classes.push("equal_time_stamps_on_one_core");
+    }
     Ok((nontrivial, classes))
 }
 
@@ -612,8 +635,12 @@ fn trace_strategy() -> BoxedStrategy<TraceCase> {
         1 => (order(), any::<u16>(), any::<u8>()).prop_map(|(order, pos, core)| TraceOp::FreeUnknown { order, pos, core }),
         2 => (any::<u16>(), any::<bool>(), 0u8..4, any::<u8>()).prop_map(|(idx, after, order, core)| TraceOp::FreeNear { idx, after, order, core }),
     ];
-    (1u8..=4, prop::collection::vec(op, 1..60))
-        .prop_map(|(cores, ops)| TraceCase { cores, ops })
+    (
+        1u8..=4,
+        prop::collection::vec(op, 1..90),
+        prop_oneof![2 => Just(0u64), 1 => any::<u64>(), 1 => Just(u64::MAX)],
+    )
+        .prop_map(|(cores, ops, ties)| TraceCase { cores, ops, ties })
         .boxed()
 }
 
@@ -631,7 +658,7 @@ pub fn run_c20(ctx: &Ctx, bin: Option<String>, tmp: PathBuf) -> Finish {
         &ctx.tier,
         ctx.seed,
         "exploration",
-        "generated synthetic binary traces (header page + per-core pages of 128-bit entries, whole-second strictly increasing timestamps, 1-4 cores, <=60 events): allocations of orders 0..10 at non-overlapping aligned trace pfns, whole frees, partial frees of first/middle/last parts (and nested partial frees of remaining parts), frees of never-allocated pfns; total held <= 1/8 of the 64-tree zone. Each trace is replayed by the built `replay` binary out of process (--frag, --interval 1). Oracles: exit status 0, no 'Free failed' log line, final free_frames == managed - frames the trace still holds, and (differential) every per-event fragmentation line and the final free_huge equal those of an in-process reference replayer written from the property statement on the same allocator library. Excluded by construction and counted: frees spanning several already-split parts, re-allocation at a held pfn, frees of unknown pfns inside a tree the trace holds something in. Non-trivial = trace with a partial free of a middle or last part followed by a free of another part of the same allocation; distinct by case hash.",
+        "generated synthetic binary traces (header page + per-core pages of 128-bit entries, whole-second increasing timestamps, in half of the cases with equal stamps on neighbouring events of one core, 1-4 cores, <90 events): allocations of orders 0..10 at non-overlapping aligned trace pfns, whole frees, partial frees of first/middle/last parts (and nested partial frees of remaining parts), frees of never-allocated pfns; total held <= 1/8 of the 64-tree zone. Each trace is replayed by the built `replay` binary out of process (--frag, --interval 1). Oracles: exit status 0, no 'Free failed' log line, final free_frames == managed - frames the trace still holds, and (differential) every per-event fragmentation line and the final free_huge equal those of an in-process reference replayer written from the property statement on the same allocator library. Excluded by construction and counted: frees spanning several already-split parts, re-allocation at a held pfn, frees of unknown pfns inside a tree the trace holds something in. Non-trivial = trace with a partial free of a middle or last part followed by a free of another part of the same allocation; distinct by case hash.",
     );
     ev.assumptions.push("the replay binary is built from /repo's working tree with default features; allocator behaviour is deterministic for a fixed single-threaded call sequence (used by the differential oracle)".into());
     let (stats, f) = run_proptest(
